@@ -56,7 +56,7 @@ def run_method(cp, method, pathsname, filename, **kw):
     m = getattr(cp, method)
     if method in ("next_paths", "next_by_line"):
         kw.setdefault("collect", True)
-        return [list(l) for l in m(pathsname=pathsname, filename=filename, **kw)]
+        return list(m(pathsname=pathsname, filename=filename, **kw))
     r = m(pathsname=pathsname, filename=filename, **kw)
     return r
 
